@@ -132,7 +132,8 @@ class RefScreen(object):
     def scroll_up(self):
         s, e = self.top, self.bot
         if s > e:
-            self._mask_rows(e, s)
+            # a region that ends above its start contains no row: nothing is inside it, and cells outside the
+            # region are never touched by scrolling
             return
         for r in range(s, e):
             self.g[r - 1] = list(self.g[r])
@@ -141,7 +142,6 @@ class RefScreen(object):
     def scroll_down(self):
         s, e = self.top, self.bot
         if s > e:
-            self._mask_rows(e, s)
             return
         for r in range(e, s, -1):
             self.g[r - 1] = list(self.g[r - 2])
